@@ -470,3 +470,15 @@ def run(ctx):
     finally:
         # leaf helpers this property's rules treat by name, pinned as complete path tables
         check_leaves(ctx, "C10.K", ['account.get_flag', 'account.set_flag', 'account.unset_flag'])
+
+
+_run_pre_scan = run
+
+
+def run(ctx):
+    try:
+        _run_pre_scan(ctx)
+    finally:
+        for nm, it in (("validate_ix_first", r"iter\(p1\)"), ("validate_ixes_exclusive", r"iter\(p1\)")):
+            for f in ctx.prog.find_fns({"name": nm, "crate": "marginfi"}):
+                check_full_scan(ctx, "C10.R1", "full-scan/" + nm, f, it, "%s examines every instruction of the transaction it is given" % nm)
